@@ -249,12 +249,13 @@ def run(facts):
         key = "%s for BytesRef" % tr
         b0 = b
         sites, frame, probs = analyse_fmt(b, facts)
-        if probs:
+        covers = lambda ss: frozenset().union(*[x[2] for x in ss]) == ALL if ss else False
+        if probs or not covers(sites):
             # the loop (or the write) may live in a private helper / a closure handed to it: judge the inlined views
             from .inline import views
             for ib in views(facts, b0):
                 s2, f2, p2 = analyse_fmt(ib, facts)
-                if not p2:
+                if not p2 and (covers(s2) or probs):
                     b, sites, frame, probs = ib, s2, f2, []
                     break
         anchors = None
